@@ -53,6 +53,17 @@ func TestSurvey(t *testing.T) {
 		c := c
 		note("mat-shape-fault", c, guarded(func() *vk.Failure { return checkShape(c) }, c.M), c.R+c.C+c.K)
 	}
+	// extra pseudo-random valid calls per method, to find small witnesses of
+	// failures that need a particular operand type
+	for _, m := range methods {
+		for seed := uint64(0); seed < 400; seed++ {
+			c := fcase{M: m.name, Recv: recvModes[seed%4], R: 1 + int(seed/4)%3, C: 1 + int(seed/12)%3, K: 1 + int(seed/36)%3, Delta: 1, Seed: seed}
+			if !m.recv {
+				c.Recv = "sized"
+			}
+			note("mat-shape-fault", c, guarded(func() *vk.Failure { return checkShape(c) }, c.M), c.R+c.C+c.K)
+		}
+	}
 	ic := indexCases()
 	for _, c := range ic {
 		c := c
